@@ -38,9 +38,10 @@ InText(cs, len) == \A k \in DOMAIN cs : 0 <= cs[k].s /\ cs[k].s < cs[k].e /\ cs[
 Init == /\ stage = "start" /\ n \in 0..MaxLen /\ cites = <<>> /\ groups = <<>> /\ wrapped = <<>>
         /\ cfg = [tok |-> CHOOSE t \in Tokenizers : TRUE, ra |-> FALSE, mode |-> CHOOSE m \in Modes : TRUE]
 
-CallClean == /\ stage = "start" /\ stage' = "cleaned"
-             /\ \E m \in 0..n : n' = m                      \* cleaning never lengthens whitespace runs
-             /\ UNCHANGED <<cfg, cites, groups, wrapped>>
+CallCleanWith(m) == /\ stage = "start" /\ stage' = "cleaned"
+                    /\ m \in 0..n /\ n' = m                 \* cleaning never lengthens the text
+                    /\ UNCHANGED <<cfg, cites, groups, wrapped>>
+CallClean == \E m \in 0..n : CallCleanWith(m)
 
 (* get_citations returns SOME list satisfying C02 / C03 (and C19 for references) for this text *)
 GoodCites(cs, len) == /\ InText(cs, len) /\ Ordered(cs)
@@ -54,7 +55,15 @@ CallGetCitations ==
     \E tok \in Tokenizers, ra \in BOOLEAN, k \in 0..MaxCites :
        \E cs \in [1..k -> [s : 0..n, e : 0..n, kind : Kinds]] : CallGetCitationsWith(tok, ra, cs)
 
-(* two-step flow: extra reference citations merged with the public filter (C03) *)
+(* two-step flow: extra reference citations merged with the public filter (C03): the result is again
+   a good list, and it keeps every non-reference citation (references may come and go) *)
+NonRefs(cs) == SelectSeq(cs, LAMBDA c : c.kind # "ref")
+CallMergeWith(cs) ==
+    /\ stage \in {"extracted", "merged"}
+    /\ GoodCites(cs, n) /\ NonRefs(cs) = NonRefs(cites)
+    /\ cites' = cs
+    /\ stage' = "merged" /\ UNCHANGED <<n, cfg, groups, wrapped>>
+(* model-checking form: one reference is added at a time *)
 CallMergeReferences ==
     /\ stage \in {"extracted", "merged"}
     /\ \/ UNCHANGED cites                       \* every extra reference was a duplicate or overlapped
@@ -107,6 +116,7 @@ Spec == Init /\ [][Next]_vars
 (* session-level guarantees *)
 CitesWellFormed == InText(cites, n) /\ Ordered(cites)
 ResolutionIsPartition == stage = "resolved" => \E upto \in 0..Len(cites) : IsPartition(groups, upto)
+MergeKeepsNonRefs == [][stage' = "merged" => NonRefs(cites') = NonRefs(cites)]_vars
 AnnotateCoversReturnedSpans == stage = "annotated" =>
     /\ Len(wrapped) = Len(cites)
     /\ \A k \in 1..(Len(wrapped) - 1) : wrapped[k][2] <= wrapped[k+1][1]
